@@ -304,12 +304,18 @@ MUST_FIRE += [
     ("m132", ["C10"], ["W3"], rep1(S + "tomography.py", "        counts = self.result.get_counts()\n        if isinstance(counts, list):\n            counts = counts[self.result_index]", "        counts = self.result.get_counts(circuit)"), "counts looked up by circuit name instead of by the stored index"),
     ("m133", ["C10"], ["W2", "W1"], rep1(S + "tomography.py", "        circuit: QuantumCircuit = preparation_circuit.compose(readout_circuit, qubits=measured_qubits)  # type: ignore\n        circuit.measure_all()\n        if circuit.metadata is None:\n            circuit.metadata = {}\n        circuit.metadata[\"readout info\"] = ReadoutInfo(readout_circuit, preparation_circuit.num_qubits, measured_qubits)\n\n        circuits.append(circuit)", "        circuit: QuantumCircuit = preparation_circuit.compose(readout_circuit, qubits=measured_qubits)  # type: ignore\n        circuit.measure_active()\n        if circuit.metadata is None:\n            circuit.metadata = {}\n        circuit.metadata[\"readout info\"] = ReadoutInfo(readout_circuit, preparation_circuit.num_qubits, measured_qubits)\n\n        circuits.append(circuit)"), "tomography circuits measured with measure_active"),
     ("m134", ["C16"], ["K9"], rep1(S + "find_local_clifford_layer.py", "    combinations = np.arange(2**rank)\n", "    combinations = np.arange(2**rank, dtype=np.uint16)\n"), "16-bit counter for up to 2^24 combinations"),
+    ("m135", ["C13"], ["A10"], rep1(S + "graph.py", "    def compress(self) -> int:", "    def compress(self) -> int:\n        if getattr(self, \"_id\", None) is not None:\n            return self._id\n        self._id = self._compress()\n        return self._id\n\n    def _compress(self) -> int:"), "graph id remembered on the instance, never reset (static form of m95)"),
+    ("m136", ["C10", "C12"], ["S2"], rep1(S + "tomography.py", "        if (s & result.bitstring).bit_count() & 1:", "        overlap = int(s & result.bitstring)\n        overlap ^= overlap >> 2\n        overlap ^= overlap >> 1\n        if overlap & 1:"), "parity by xor-folding that forgets bits 4 and 5"),
+    ("m137", ["C11"], ["W15"], rep1(S + "tomography.py", "            expectation_values.update(stabilizer_fitter.expectation_values(full_hilbert_space=full_hilbert_space))", "            expectation_values.update(stabilizer_fitter.expectation_values())"), "mode flag not handed on to the per-circuit fitter"),
+    ("m138", ["C11"], ["B3"], rep1(S + "tomography.py", "        if qubits is None or not full_hilbert_space:\n            return expectation_values", "        if qubits is None or not full_hilbert_space or len(qubits) == self.readout_info.total_num_qubits:\n            return expectation_values"), "embedding skipped for a permuted full-length qubit list"),
+    ("m139", ["C14"], ["K4"], rep1(S + "stabilizer.py", "        content = \"','\".join(self.to_list())", "        content = \"','\".join(pauli.lstrip(\"+-\") for pauli in self.to_list())"), "printed form drops the signs"),
     ("m95", ["C19"], ["K12"], rep1(S + "graph.py", "    def compress(self) -> int:", "    def compress(self) -> int:\n        if getattr(self, \"_id\", None) is not None:\n            return self._id\n        self._id = self._compress()\n        return self._id\n\n    def _compress(self) -> int:"), "graph id remembered by the object and never invalidated"),
     ("m72", ["C13"], ["A3"], rep1(S + "circuit_lookup.py", "result.circuits = [circuit.copy() for circuit in self.circuits]", "result.circuits = list(self.circuits)"), "fresh list of the cached circuits"),
 ]
 
 MUST_STAY_SILENT = [
     # id, properties to run, edit, exit 2 tolerated?, note
+    ("s37", ["C10", "C12"], rep1(S + "tomography.py", "        if (s & result.bitstring).bit_count() & 1:", "        overlap = int(s & result.bitstring)\n        overlap ^= overlap >> 4\n        overlap ^= overlap >> 2\n        overlap ^= overlap >> 1\n        if overlap & 1:"), False, "parity by complete xor-folding of a 6-bit overlap"),
     ("s36", ["C10", "C12"], rep1(S + "tomography.py", "    return Pauli((np.array([bool(int(x)) for x in l]), np.zeros(num_qubits, dtype=bool)))", "    return Pauli((np.array([bool((bitstring >> j) & 1) for j in range(num_qubits)]), np.zeros(num_qubits, dtype=bool)))"), False, "mask bits by shifting: position j = bit j"),
     ("s35", ["C18"], rep1(S + "f2_algebra.py", "    cols = A.shape[1]\n\n    out = []", "    cols = A.shape[1]\n    if not pivot_cols:\n        return np.identity(cols, dtype=np.int8)\n    out = []"), False, "zero matrix: the whole space, handed out early"),
     ("s34", ["C18"], rep1(S + "f2_algebra.py", "    return len(rref(A)[1])", "    return int(np.count_nonzero(rref(A)[0].any(axis=1)))"), False, "rank as the number of non-zero rows of the reduced matrix"),
